@@ -163,6 +163,9 @@ type readSpec struct {
 	Sig   *sigSpec `json:"sig,omitempty"`
 	// Muts: edits of the packed (and signed) envelope on its way to the receiver
 	Muts []mutSpec `json:"muts,omitempty"`
+	// Hdr: how the sender composes this envelope beside its records (shape.go);
+	// nil = question section present as asked, AA set, no OPT, xcase.Compress
+	Hdr *hdrSpec `json:"envelope_shape,omitempty"`
 }
 type xcase struct {
 	Kind    string     `json:"kind"` // axfr | ixfr
@@ -504,6 +507,9 @@ func buildFrame(c xcase, r readSpec, macs map[int]string, now int64) []byte {
 	m.Compress = c.Compress
 	for _, x := range r.RRs {
 		m.Answer = append(m.Answer, x.RR())
+	}
+	if r.Hdr != nil {
+		r.Hdr.apply(c, m)
 	}
 	plain, err := m.Pack()
 	if err != nil {
@@ -1637,6 +1643,9 @@ func runC15(r *Rng, tier string, n int) {
 
 	// ---- U. transfers over a caller-supplied datagram connection: answer datagrams of every size (dgram.go)
 	dgramFamilies(r, thorough)
+
+	// ---- W. how the sender composes its envelopes beside the record split: question section, header bits, OPT, compression (shape.go)
+	shapeFamilies(r, thorough)
 
 	// ---- V. TSIG key and algorithm names spelled in mixed case, against the harness's own RFC 8945 signer / verifier (names.go)
 	namesFamilies(r, thorough)
